@@ -13,6 +13,8 @@ def run(P, R, L):
     K.role1(P, R, L)
     R.clause("GRD-10", "closed-interval bound comparisons (is_base_level_for_key, overlap tests, level-0 expansion)")
     K.grd10_closed_intervals(P, R, L)
+    R.clause("PAIR-9", "compaction input sets are boundary-expanded (add_boundary_inputs) before their key range is computed")
+    K.pair9_boundary_inputs(P, R, L)
     R.clause("ROLE-3", "level roles of version edits: outputs at level+1, inputs of both levels deleted, trivial move level -> level+1")
     K.role3_levels(P, R, L)
     R.clause("PAIR-3", "bounds of every output file are captured from the entries added to it")
